@@ -7,7 +7,7 @@
 From Coq Require Import List NArith ZArith Bool Arith Lia Permutation SetoidList.
 From SK Require Import lib.Tok lib.LGraph lib.Mono model.C06_Model lib.C06_Spec proof.C06_All proof.C06_Main model.C11_Model proof.C11_Aut proof.C11_Dedup proof.C11_Main.
 From SK Require Import model.C03_Model model.C04_Model model.C04_Reactor proof.C03_Proof proof.C03_Glue proof.C03_Backward
-                       proof.C04_Glue proof.C04_Template proof.C04_Proof proof.C04_Any proof.C04_Engine proof.C04_Prune proof.C04_Object proof.C04_Chain proof.C04_DefaultChain.
+                       proof.C04_Glue proof.C04_Template proof.C04_Proof proof.C04_Any proof.C04_Engine proof.C04_Prune proof.C04_Object proof.C04_Chain proof.C04_DefaultChain proof.C04_Wf.
 Import ListNotations.
 Local Open Scope Z_scope.
 
@@ -221,15 +221,22 @@ Section OwnImplicit.
     rewrite !(left_no_H core invert G H W NH) in Hx. discriminate.
   Qed.
 
+  Lemma own_gwf_host : gwf (tr_host A).
+  Proof.
+    apply gwf_tr_host; [exact (pw_A _ _ PW)|]. destruct (pair_wfb_sound G H W) as (_ & CG & CH). unfold A. destruct invert; assumption.
+  Qed.
+  Lemma own_gwf_pat : gwf (tr_pat l).
+  Proof. exact (gwf_tr_pat_describes A B tpl l D (own_left_of tpl (d_wf _ _ _ D))). Qed.
+
   Theorem own_comp_implicit :
     forallb (fun p => 0 <=? m_hc (snd p)) (gnodes l) = true ->
-    gwf (tr_host A) -> gwf (tr_pat l) -> oracle_ok enum (tr_host A) (tr_pat l) ->
+    oracle_ok enum (tr_host A) (tr_pat l) ->
     (0 <? length (comps (tr_pat l)))%nat && (length (comps (tr_pat l)) <? length (comps (tr_host A)))%nat = false ->
     ((length (comps (tr_host A)) <? length (comps (tr_pat l)))%nat = true \/ id_separatingb (tr_host A) (tr_pat l) = true) ->
     exists T0 : N, forall (T : N) (o : ropts), (T0 <= T)%N ->
       o_strategy o = SMember 1%N -> o_thr o = Some T -> o_pref o = false -> regenerates_with enum A B tpl l r o.
   Proof.
-    intros Hnn GH GP Hor NG Hc.
+    intros Hnn Hor NG Hc. pose proof own_gwf_host as GH. pose proof own_gwf_pat as GP.
     apply (comp_regenerates enum A B tpl l r PW D (own_left_of tpl (d_wf _ _ _ D)) own_no_XH Hnn GH GP Hor NG).
     destruct Hc as [Hc|Hc]; [left; exact Hc|right].
     rewrite <- tr_pat_ids. apply id_separatingb_sound; [exact GH|exact GP| |exact Hc].
@@ -240,13 +247,13 @@ Section OwnImplicit.
 
   Theorem own_bt_implicit :
     forallb (fun p => 0 <=? m_hc (snd p)) (gnodes l) = true ->
-    gwf (tr_host A) -> gwf (tr_pat l) -> oracle_ok enum (tr_host A) (tr_pat l) ->
+    oracle_ok enum (tr_host A) (tr_pat l) ->
     ((0 <? length (comps (tr_pat l)))%nat && (length (comps (tr_pat l)) <? length (comps (tr_host A)))%nat = true \/
      (length (comps (tr_host A)) <? length (comps (tr_pat l)))%nat = true \/ id_separatingb (tr_host A) (tr_pat l) = true) ->
     exists T0 : N, forall (T : N) (o : ropts), (T0 <= T)%N ->
       o_strategy o = SMember 2%N -> o_thr o = Some T -> o_pref o = false -> regenerates_with enum A B tpl l r o.
   Proof.
-    intros Hnn GH GP Hor Hc.
+    intros Hnn Hor Hc. pose proof own_gwf_host as GH. pose proof own_gwf_pat as GP.
     apply (bt_regenerates enum A B tpl l r PW D (own_left_of tpl (d_wf _ _ _ D)) own_no_XH Hnn GH GP Hor).
     destruct Hc as [Hc|[Hc|Hc]]; [left; exact Hc|right; left; exact Hc|right; right].
     rewrite <- tr_pat_ids. apply id_separatingb_sound; [exact GH|exact GP| |exact Hc].
@@ -293,15 +300,24 @@ Section OwnDefault.
     exact (label_some_in A' n x Ex).
   Qed.
 
+  Lemma default_gwf_host : gwf (tr_host A').
+  Proof.
+    pose proof (pair_AB' core invert G H W OK) as PW. destruct (closed_AB core invert G H W OK) as [CA _]. fold A in CA.
+    destruct (default_okb_foldable A B _ PW OK) as [FA _].
+    destruct (fold_host_spec A (wf_host_nodup A (pw_A _ _ PW)) FA) as (_ & _ & FAA).
+    unfold A', substrate. fold A. apply gwf_tr_host; [exact (folded_wf A _ _ FAA (pw_A _ _ PW))|exact (folded_closed A _ _ FAA CA)].
+  Qed.
+
   Theorem own_comp_default (rc : its) (l r : molg) : rule_of core invert G H = Some (rc, l, r) ->
     forallb (fun p => 0 <=? m_hc (snd p)) (gnodes l) = true ->
-    gwf (tr_host A') -> gwf (tr_pat l) -> oracle_ok enum (tr_host A') (tr_pat l) ->
+    oracle_ok enum (tr_host A') (tr_pat l) ->
     (0 <? length (comps (tr_pat l)))%nat && (length (comps (tr_pat l)) <? length (comps (tr_host A')))%nat = false ->
     ((length (comps (tr_host A')) <? length (comps (tr_pat l)))%nat = true \/ id_separatingb (tr_host A') (tr_pat l) = true) ->
     exists T0 : N, forall (T : N) (o : ropts), (T0 <= T)%N ->
       o_strategy o = SMember 1%N -> o_thr o = Some T -> o_pref o = false -> regenerates_with enum A' B' rc l r o.
   Proof.
-    intros Er Hnn GH GP Hor NG Hc. destruct (default_facts rc l r Er) as (PW' & D' & LO & Hf).
+    intros Er Hnn Hor NG Hc. destruct (default_facts rc l r Er) as (PW' & D' & LO & Hf).
+    pose proof default_gwf_host as GH. pose proof (gwf_tr_pat_describes A' B' rc l D' LO) as GP.
     apply (comp_regenerates enum A' B' rc l r PW' D' LO Hf Hnn GH GP Hor NG).
     destruct Hc as [Hc|Hc]; [left; exact Hc|right].
     rewrite <- tr_pat_ids. exact (id_separatingb_sound _ _ GH GP (default_pat_in_host rc l r Er) Hc).
@@ -309,13 +325,14 @@ Section OwnDefault.
 
   Theorem own_bt_default (rc : its) (l r : molg) : rule_of core invert G H = Some (rc, l, r) ->
     forallb (fun p => 0 <=? m_hc (snd p)) (gnodes l) = true ->
-    gwf (tr_host A') -> gwf (tr_pat l) -> oracle_ok enum (tr_host A') (tr_pat l) ->
+    oracle_ok enum (tr_host A') (tr_pat l) ->
     ((0 <? length (comps (tr_pat l)))%nat && (length (comps (tr_pat l)) <? length (comps (tr_host A')))%nat = true \/
      (length (comps (tr_host A')) <? length (comps (tr_pat l)))%nat = true \/ id_separatingb (tr_host A') (tr_pat l) = true) ->
     exists T0 : N, forall (T : N) (o : ropts), (T0 <= T)%N ->
       o_strategy o = SMember 2%N -> o_thr o = Some T -> o_pref o = false -> regenerates_with enum A' B' rc l r o.
   Proof.
-    intros Er Hnn GH GP Hor Hc. destruct (default_facts rc l r Er) as (PW' & D' & LO & Hf).
+    intros Er Hnn Hor Hc. destruct (default_facts rc l r Er) as (PW' & D' & LO & Hf).
+    pose proof default_gwf_host as GH. pose proof (gwf_tr_pat_describes A' B' rc l D' LO) as GP.
     apply (bt_regenerates enum A' B' rc l r PW' D' LO Hf Hnn GH GP Hor).
     destruct Hc as [Hc|[Hc|Hc]]; [left; exact Hc|right; left; exact Hc|right; right].
     rewrite <- tr_pat_ids. exact (id_separatingb_sound _ _ GH GP (default_pat_in_host rc l r Er) Hc).
